@@ -662,6 +662,7 @@ class RTCSctpTransport(AsyncIOEventEmitter):
         self._fast_recovery_exit = None
         self._fast_recovery_transmit = False
         self._forward_tsn_chunk: Optional[ForwardTsnChunk] = None
+        self._forward_tsn_skipped: Deque[DataChunk] = deque()
         self._flight_size = 0
         self._local_tsn = random32()
         self._last_sacked_tsn = tsn_minus_one(self._local_tsn)
@@ -1632,17 +1633,24 @@ class RTCSctpTransport(AsyncIOEventEmitter):
         if uint32_gt(self._last_sacked_tsn, self._advanced_peer_ack_tsn):
             self._advanced_peer_ack_tsn = self._last_sacked_tsn
 
-        done = 0
-        streams = {}
+        # forget skipped chunks which the peer has acknowledged
+        while self._forward_tsn_skipped and uint32_gte(
+            self._last_sacked_tsn, self._forward_tsn_skipped[0].tsn
+        ):
+            self._forward_tsn_skipped.popleft()
+
         while self._sent_queue and self._sent_queue[0]._abandoned:
             chunk = self._sent_queue.popleft()
             self._advanced_peer_ack_tsn = chunk.tsn
-            done += 1
-            if not (chunk.flags & SCTP_DATA_UNORDERED):
-                streams[chunk.stream_id] = chunk.stream_seq
+            self._forward_tsn_skipped.append(chunk)
 
-        if done:
-            # build FORWARD TSN
+        if self._forward_tsn_skipped:
+            # build FORWARD TSN, it is repeated until the peer's cumulative
+            # TSN catches up, and names every stream skipped so far
+            streams = {}
+            for chunk in self._forward_tsn_skipped:
+                if not (chunk.flags & SCTP_DATA_UNORDERED):
+                    streams[chunk.stream_id] = chunk.stream_seq
             self._forward_tsn_chunk = ForwardTsnChunk()
             self._forward_tsn_chunk.cumulative_tsn = self._advanced_peer_ack_tsn
             self._forward_tsn_chunk.streams = list(streams.items())
